@@ -303,14 +303,14 @@ RollbackB(n, st) ==
 \* manager passes: the hash of the block below the filter tip.
 RollbackF(st) ==
   LET th   == IdxH(tipk.F)
-      newT == abs.B[Len(abs.F) - 1]
+      newT == IF Len(abs.F) >= 2 THEN abs.B[Len(abs.F) - 1] ELSE -1   \* at genesis: zero hash
       fT   == [file EXCEPT !.F = TruncTo(@, Len(@) - 2)]
       tT   == [tipk EXCEPT !.F = newT]
       bad  == th = NF \/ th = 0 \/ ReadAt(file.F, th - 1) = NF
       fileFirst == ~FixRollbackOrder
   IN
   /\ up = 1 /\ nops < MaxOps
-  /\ Len(abs.F) >= 2
+  /\ Len(abs.F) >= 1          \* at length 1 this is a rollback past genesis: must fail, unchanged
   /\ st \in RbStops
   /\ Bump(st)
   /\ UNCHANGED <<pos, idx>>
